@@ -281,12 +281,14 @@ impl Check for HdlcCheck {
             bits.extend((0..n).map(|_| src.below(2) as u8));
             clean = clean && n == 0;
         }
-        // Delimiters that an overlapping flag pattern makes ambiguous (noise
-        // tails, flips next to a flag): the frame is no longer a MUST.
+        // Delimiters overlapped by another flag pattern (noise tails, flips
+        // next to a flag): counted; see below.
         for t in tx.iter_mut() {
             if t.class == Class::Must && (overlap_hazard(&bits, t.open_pos) || overlap_hazard(&bits, t.close_pos)) {
-                t.class = Class::May;
-                ctx.count("delimiter_overlap_hazard");
+                // Two flags sharing a zero (the only way flag patterns can
+                // overlap) are two flags: the frame stays a MUST. (It was MAY
+                // while the deframer's flag hunt lost such frames; repaired.)
+                ctx.count("delimiter_shares_a_zero_with_another_flag");
             }
         }
         ctx.ev(|| format!("C13 min {min_size} max {max_size} checksum {checksum} fix {fix} frames {:?} noise {noise_kind} bits {}", tx.iter().map(|t| (t.payload.len(), t.flips, t.class)).collect::<Vec<_>>(), bits.len()));
